@@ -38,6 +38,28 @@ def table_inputs():
     for pre in ("[[a|", "<b>", "''", "{{x|", "{{x|y="):
         for dd in (50, 98, 99, 100):
             out += [pre * dd + "{{" * 60 + "a" + "}}" * 60]
+    # every Unicode white-space character, and characters whose LOW BYTE is an ASCII space character, wherever the
+    # tokenizers test for white space: after a template name, in tag headers and attributes, table styles, headings
+    ws = [chr(i) for i in range(0x3100) if chr(i).isspace()] + ["\u0120", "\u010a", "\u0109", "\u010d", "\u0220", "\u2020", "\u200b", "\ufeff"]
+    for w in ws:
+        out += ["{{foo\n" + w + "}}", "{{foo" + w + "\n|x=1}}", "{{foo\n" + w + "|x}}", "{{" + w + "foo" + w + "}}", "<b" + w + "a=1>x</b>",
+                "<b a=1" + w + ">x</b" + w + ">", "<b a" + w + "=" + w + "\"c\">x</b>", "<br" + w + "/>", "{|" + w + "a=b\n|" + w + "c\n|}",
+                "==" + w + "h" + w + "==\n", "[[a" + w + "|b]]", "[http://a.b" + w + "c]", "&#" + w + "65;", "<" + w + "b>x</b>", "</b" + w + ">"]
+    # bracketed and free links whose URL ends in a node or whose title starts with one
+    for sch in ("http://", "//", "mailto:"):
+        for tail in ("{{p}}", "&amp;", "<!--c-->", "{{{1}}}", "[[x]]", "''i''", "<b>y</b>"):
+            out += ["[%sexample.com/%s title]" % (sch, tail), "[%sexample.com/%s]" % (sch, tail), "[%sexample.com/ %s t]" % (sch, tail),
+                    "%sexample.com/%s x" % (sch, tail), "[%s%s title]" % (sch, tail)]
+    # nesting through attribute values / tag headers, far beyond the depth limit
+    for dd in (60, 120, 400, 1000):
+        out += ["<a " * dd + "/>" * dd, "<a b=" * dd + "x" + ">y</a>" * dd, "<a b=\"" * dd + "x" + "\">y</a>" * dd, "<a {{b|" * dd + "}}/>" * dd,
+                "{| a=<b c=" * dd + "x" + ">y</b>\n|}" * dd]
+    # numeric entities with thousands of digits / leading zeros (int() refuses more than 4300 decimal digits)
+    out += ["&#" + "9" * 5000 + ";", "&#x" + "f" * 5000 + ";", "&#" + "0" * 5000 + "65;", "&#x" + "0" * 5000 + "41;", "&#" + "0" * 4299 + "65;",
+            "a&#" + "0" * 4400 + ";b", "&#123456789;", "&#x00110000;"]
+    # two templates / arguments touching in names, keys and titles
+    out += ["{{foo|{{b}}{{c}}=d}}", "{{foo|a{{b}}{{c}}=d}}", "{{{{a}}{{b}}|x=1}}", "[[{{a}}{{b}}]]", "{{foo|{{b}}{{{c}}}=d}}", "{{{ {{a}}{{b}} |d}}}",
+            "{{foo|{{b}}{{=d}}", "{{foo|{{ x {{c}}=d}}"]
     # comments: terminated and unterminated mixed, inside routes that are retried (F20)
     out += ["<!--a<!--b-->c<!--d", "{{a|<!--b}}<!--c-->", "<!--" * 5 + "-->", "[[a|<!--b]]<!--c-->d<!--e", "<!--x--><!--y", "''<!--a''<!--b-->",
             "<b><!--</b><!---->", "<!--<!---->-->", "{{a|<!--}}-->|b}}<!--", "<!--[[a|" * 6, "<b><!--" * 6 + "-->", "{{{a|<!--" * 4 + "}}}"]
